@@ -12,6 +12,9 @@ type UpdateOpts struct {
 	Format  string
 	Seed    int64
 	NValues int
+	// UnusedDefault forces the shape in which the update method carries a goverter:default it never applies and its
+	// own target type recurs below it (C11: inline T -> *U positions must not be touched by that constructor)
+	UnusedDefault bool
 }
 
 // UpdateCase builds one goverter:update case.
@@ -46,7 +49,10 @@ func UpdateCase(r *rand.Rand, name string, o UpdateOpts) *Case {
 	// defRec: the method's own target type recurs below it and is filled inline from an unnamed struct. The method's
 	// field settings are keyed by the target TYPE and would apply there, too (not judged), so such cases only use
 	// field kinds without map / ignore lines.
-	defRec := !unnamedSource && r.Intn(8) == 0
+	if o.UnusedDefault {
+		unnamedSource = false
+	}
+	defRec := !unnamedSource && (o.UnusedDefault || r.Intn(8) == 0)
 	if defRec {
 		kinds = []string{"basic", "basic", "namedbasic", "struct", "slice", "map", "ptrbasic", "ptrstruct", "identslice", "identptr", "basic2ptr", "namedslice", "namedmap", "slice2ptr", "struct2ptr", "genericstruct"}
 	}
